@@ -58,6 +58,9 @@ def mk_stubs(ctx, fns, utils_fns, captured):
     return stubs
 
 
+_METHODS = {}
+
+
 def run(ctx):
     ctx.explanation = (
         'plan_timeseries_predictor, plan_fetch_timeseries_partitions, plan() and the ts_utils helpers (validate_ts_where_condition, '
@@ -74,6 +77,8 @@ def run(ctx):
     cls = class_named(tree, 'PlanJoinTSPredictorQuery')
     ctx.need(cls is not None, 'PlanJoinTSPredictorQuery not found')
     fns = {m.name: m for m in cls.body if isinstance(m, ast.FunctionDef)}
+    _METHODS.clear()
+    _METHODS['PlanJoinTSPredictorQuery'] = fns
     for need in ('plan_timeseries_predictor', 'plan_fetch_timeseries_partitions', 'plan'):
         ctx.need(need in fns, f'{need} not found')
     utree = ctx.src.tree(TU)
@@ -94,7 +99,7 @@ def run(ctx):
             setattr(q, k, v)
         table = Obj('Identifier', parts=['int1', 'tbl'], alias=Obj('Identifier', parts=['ta'], alias=None))
         predictor = Obj('Identifier', parts=['proj', 'tp'], alias=Obj('Identifier', parts=['tb'], alias=None))
-        it = Interp(ISA, stubs, max_steps=60000)
+        it = Interp(ISA, stubs, max_steps=60000, methods=_METHODS)
         out = {'raised': None, 'ret': None}
         try:
             out['ret'] = it.call_function(ptp, [self_, q, table, 'proj', predictor], {}, Env())
@@ -252,7 +257,7 @@ def run(ctx):
         stubs['self.planner.plan_project'] = lambda it, q, df: Obj('Projected', dataframe=df)
         join = Obj('Join', left=model if left_is_model else tbl, right=tbl if left_is_model else model, join_type='JOIN', condition=None)
         q = select_ctor(None, targets=[Obj('Star')], from_table=join)
-        it = Interp(ISA, stubs)
+        it = Interp(ISA, stubs, methods=_METHODS)
         out = it.call_function(pl, [Obj('PlanJoinTSPredictorQuery'), q], {}, Env())
         rows += 1
         kinds = [s.kind for s in added]
